@@ -109,6 +109,20 @@ def body(ctx):
         ops = [dict(api='pull', path='/f', size=100, dest='path', local_as=('str', 'missing_dir', 'pathlib')[k]), dict(api='push', path='/q', size=10, src=('bytesio', 'path')[k % 2], mtime=3),
                dict(api='stat', path='/s', st=[1, 2, 3]), dict(api='shell', decode=False, cmd='x', chunks=[])]
         specs.append(('not connected', dict(seed=ctx.seed + 960 + k, maxdata=4096, rid='plus', frag='whole', connect=False, close=(k == 1), ops=ops), {}))
+    # one event loop per public call on the async side (asyncio.run() each time, the counterpart of plain calls on the sync side)
+    for k in range(3):
+        ops = [dict(api='push', path='/q%d' % k, size=5000, src=('path', 'bytesio', 'dir')[k], files=[['a', 10], ['b', 20]], mtime=3), dict(api='shell', decode=False, cmd='x', chunks=[b'x'.hex()]),
+               dict(api='reconnect', close_first=bool(k % 2)), dict(api='push', path='/r%d' % k, size=100, src='path', mtime=4), dict(api='pull', path='/r%d' % k, size=None, dest='path')]
+        specs.append(('one event loop per call', dict(seed=ctx.seed + 970 + k, maxdata=4096, rid='plus', frag='whole', loop_per_call=True, ops=ops), {}))
+    # requests that do not fit an empty send buffer (a device path of maxdata minus the header and more)
+    for k, n_ in enumerate((4070, 4076, 4080, 4088, 4096, 5000)):
+        ops = [dict(api=('stat', 'list', 'pull')[k % 3], path='/' + 'p' * n_, st=[1, 2, 3], entries=[], size=10, dest='bytesio'), dict(api='shell', decode=False, cmd='after', chunks=[b'ok'.hex()])]
+        specs.append(('oversize request', dict(seed=ctx.seed + 980 + k, maxdata=4096, rid='plus', frag='whole', ops=ops), {}))
+    # generators created in one connection state and first advanced in another
+    for k in range(4):
+        ops = [dict(api='streaming_shell', decode=False, cmd='g', chunks=[b'a'.hex(), b'b'.hex()], take=0, hold='g'), dict(api='reconnect', close_first=True) if k % 2 else dict(api='shell', decode=False, cmd='x', chunks=[]),
+               dict(api='resume', gen='g')]
+        specs.append(('generator created, then the connection changes', dict(seed=ctx.seed + 990 + k, maxdata=4096, rid='plus', frag='whole', connect=(k < 2), ops=ops), {}))
     # a damaged packet in the middle of a session (payload bit, checksum field off by one, checksum field zero)
     for k in range(9):
         ops = [dict(api='shell', decode=False, cmd='a', chunks=[b'one'.hex(), b'two'.hex()]), dict(api='stat', path='/s', st=[1, 2, 3]), dict(api='pull', path='/p', size=5000, dest='bytesio'),
